@@ -332,7 +332,13 @@ func MsgDigits(hf Hash, R, root []byte, idx uint32, msg []byte) []int {
 // authentication path, and the root obtained by climbing that path. Used to exercise verification at tall
 // heights and large indices, where real keys cannot be generated.
 func Fabricate(hf Hash, h int, idx uint32, msg, skSeed, skPRF, pubSeed []byte, auth func(level int) []byte) (sig []byte, pk []byte) {
-	p := NewWOTS(16)
+	return FabricateW(hf, h, idx, msg, skSeed, skPRF, pubSeed, auth, 16)
+}
+
+// FabricateW is Fabricate for Winternitz parameter w in {4,16,256}. idx may name a leaf beyond 2^h-1: the
+// specification's verification walk (node index = idx >> level, no range test) is followed literally.
+func FabricateW(hf Hash, h int, idx uint32, msg, skSeed, skPRF, pubSeed []byte, auth func(level int) []byte, w int) (sig []byte, pk []byte) {
+	p := NewWOTS(w)
 	k := &Key{Hf: hf, Hgt: h, SkSeed: skSeed, SkPRF: skPRF, PubSeed: pubSeed, p: p}
 	leaf := k.Leaf(idx)
 	// climb
